@@ -125,6 +125,15 @@ pub enum GenericIfData {
 // tokenize()
 // Tokenize the text of the a2ml section
 fn tokenize_a2ml(filename: &Filename, input: &str) -> Result<(Vec<TokenType>, String), String> {
+    tokenize_a2ml_with_includes(filename, input, &mut vec![filename.full.clone()])
+}
+
+// include_stack contains the full names of the files that are currently being tokenized, in order to detect recursive includes
+fn tokenize_a2ml_with_includes(
+    filename: &Filename,
+    input: &str,
+    include_stack: &mut Vec<std::ffi::OsString>,
+) -> Result<(Vec<TokenType>, String), String> {
     let mut amltokens = Vec::<TokenType>::new();
     let input_bytes = input.as_bytes();
     let datalen = input_bytes.len();
@@ -167,7 +176,7 @@ fn tokenize_a2ml(filename: &Filename, input: &str) -> Result<(Vec<TokenType>, St
         } else if input_bytes[bytepos..].starts_with(b"/include") {
             // copy any uncopied text before the include token
             complete_string.push_str(&input[copypos..startpos]);
-            let (mut tokresult, incfile_text) = tokenize_include(filename, input, &mut bytepos)?;
+            let (mut tokresult, incfile_text) = tokenize_include(filename, input, &mut bytepos, include_stack)?;
             complete_string.push_str(&incfile_text);
             copypos = bytepos;
 
@@ -254,6 +263,7 @@ fn tokenize_include(
     filename: &Filename,
     input: &str,
     bytepos: &mut usize,
+    include_stack: &mut Vec<std::ffi::OsString>,
 ) -> Result<(Vec<TokenType>, String), String> {
     let input_bytes = input.as_bytes();
     let datalen = input_bytes.len();
@@ -307,11 +317,22 @@ fn tokenize_include(
     let incname = &input[fname_idx_start..fname_idx_end];
     let incfilename = loader::make_include_filename(incname, &filename.full);
 
+    if include_stack.contains(&incfilename) {
+        return Err(format!("recursive include of {incname}"));
+    }
+
     // check if incname is an accessible file
     let incpathref = Path::new(&incfilename);
     let loadresult = loader::load(incpathref);
     if let Ok(incfiledata) = loadresult {
-        tokenize_a2ml(&Filename::from(incpathref), &incfiledata)
+        include_stack.push(incfilename.clone());
+        let result = tokenize_a2ml_with_includes(
+            &Filename::from(incpathref),
+            &incfiledata,
+            include_stack,
+        );
+        include_stack.pop();
+        result
     } else {
         Err(format!("failed reading {}", incpathref.display()))
     }
